@@ -56,8 +56,8 @@ theorem new_reverseDiff {cfg : Cfg} (hleg : cfg.legacy = false)
     {s : State} {b : Block} {casm' : Map Nat CasmMeta} (ok : NewOK cfg s casm' b) (s' : State)
     (hHS : s'.hStorage = Map.setAll s.hStorage (b.diff.storage.map (fun e => ((e.1, b.number), e.2))))
     (hHN : s'.hNonce = Map.setAll s.hNonce (b.diff.nonces.map (fun e => ((e.1, b.number), e.2))))
-    (hHC : s'.hClass = Map.setAll (Map.setAll s.hClass (b.diff.replaced.map (fun e => ((e.1, b.number), e.2))))
-                        (b.diff.deployed.map (fun e => ((e.1, b.number), e.2)))) :
+    (hHC : s'.hClass = Map.setAll (Map.setAll s.hClass (b.diff.deployed.map (fun e => ((e.1, b.number), e.2))))
+                        (b.diff.replaced.map (fun e => ((e.1, b.number), e.2)))) :
     reverseDiff cfg b.number b.diff s' = .ok
       { Diff.empty with
         storage := b.diff.storage.map (fun e => (e.1, if b.number = 0 then 0 else oldS s e.1)),
@@ -112,8 +112,8 @@ theorem new_contracts_inverse {cfg : Cfg} {s s2 : State} {b : Block} {casm' : Ma
     (e2Cl : s2.classes = s.classes) (e2Tr : s2.classTrie = s.classTrie)
     (e2HS : s2.hStorage = Map.setAll s.hStorage (b.diff.storage.map (fun e => ((e.1, b.number), e.2))))
     (e2HN : s2.hNonce = Map.setAll s.hNonce (b.diff.nonces.map (fun e => ((e.1, b.number), e.2))))
-    (e2HC : s2.hClass = Map.setAll (Map.setAll s.hClass (b.diff.replaced.map (fun e => ((e.1, b.number), e.2))))
-                        (b.diff.deployed.map (fun e => ((e.1, b.number), e.2)))) :
+    (e2HC : s2.hClass = Map.setAll (Map.setAll s.hClass (b.diff.deployed.map (fun e => ((e.1, b.number), e.2))))
+                        (b.diff.replaced.map (fun e => ((e.1, b.number), e.2)))) :
     revertContractsNew b.number b.diff
       { Diff.empty with
         storage := b.diff.storage.map (fun e => (e.1, if b.number = 0 then 0 else oldS s e.1)),
@@ -425,8 +425,8 @@ theorem new_contracts_inverse {cfg : Cfg} {s s2 : State} {b : Block} {casm' : Ma
     exact ok.aboveN x b.number (Nat.le_refl _)
   · show Map.delAll (Map.delAll s2.hClass (histKeys1 b.number (Map.keys b.diff.replaced))) (histKeys1 b.number (Map.keys b.diff.deployed)) = s.hClass
     rw [e2HC]
-    have sA1 := sorted_setAll (sorted_setAll ok.sHC (b.diff.replaced.map (fun e => ((e.1, b.number), e.2))))
-      (b.diff.deployed.map (fun e => ((e.1, b.number), e.2)))
+    have sA1 := sorted_setAll (sorted_setAll ok.sHC (b.diff.deployed.map (fun e => ((e.1, b.number), e.2))))
+      (b.diff.replaced.map (fun e => ((e.1, b.number), e.2)))
     apply ext (sorted_delAll (sorted_delAll sA1 _) _) ok.sHC
     intro k
     obtain ⟨a, m⟩ := k
@@ -440,13 +440,13 @@ theorem new_contracts_inverse {cfg : Cfg} {s s2 : State} {b : Block} {casm' : Ma
         · simp only [h1, h2, if_false]
           rw [get_setAll_notin, get_setAll_notin]
           · intro hmem
-            apply h2
+            apply h1
             simp only [List.map_map, List.mem_map, Function.comp] at hmem
             obtain ⟨e, he, hee⟩ := hmem
             injection hee with e1 _
             exact (keys_histKeys1_mem _ _ _ _).2 ⟨rfl, by unfold Map.keys; exact List.mem_map.2 ⟨e, he, e1⟩⟩
           · intro hmem
-            apply h1
+            apply h2
             simp only [List.map_map, List.mem_map, Function.comp] at hmem
             obtain ⟨e, he, hee⟩ := hmem
             injection hee with e1 _
